@@ -2,6 +2,7 @@
 package props
 
 import (
+	_ "verifharness/props/c01"
 	_ "verifharness/props/c09"
 	_ "verifharness/props/c10"
 	_ "verifharness/props/c11"
